@@ -39,6 +39,7 @@ def worker_finish(tier, rec, st):
 
 
 PRE = """
+import abc
 class Boom(Exception):
     pass
 
@@ -78,6 +79,13 @@ def run_case(seed, tier, rec, st):
         classes = {}      # name -> {"parent", "tag", "root"}
         order = []
 
+        def _ancestors(n):
+            out = []
+            while n in classes and isinstance(classes[n], dict):
+                out.append(n)
+                n = classes[n].get("parent")
+            return out
+
         def define(name, parent, tag, root, extra="", tagfield="k"):
             body = []
             if tag is not None and mode != "tagger":
@@ -90,7 +98,21 @@ def run_case(seed, tier, rec, st):
                     body.append(f"    b_{name}: bytes = b''")
             if extra:
                 body.append(extra)
-            src = f"@dataclass\nclass {name}({parent}):\n" + "\n".join(body) + "\n"
+            deco = "@dataclass"
+            parents = parent
+            if tag is None and mode in ("config", "annotated", "union") and not extra and rng.random() < 0.5:
+                # an ABSTRACT intermediate class (nobody instantiates it, its concrete subclasses are ordinary variants)
+                parents = f"{parent}, abc.ABC"
+                body.append("    @abc.abstractmethod\n    def describe(self):\n        ...")
+                classes.setdefault("_abstract", set()).add(name)
+            elif any(a in classes.get("_abstract", ()) for a in _ancestors(parent)):
+                body.append("    def describe(self):\n        return 'concrete'")
+            if (tag is not None and mode in ("config", "annotated", "union") and not bare and not packed
+                    and not any(a in classes.get("_abstract", ()) or a in classes.get("_slots", ()) for a in _ancestors(parent)) and rng.random() < 0.25):
+                # dataclass(slots=True) re-creates the class: the decorated class is the variant, not the discarded original
+                deco = "@dataclass(slots=True)"
+                classes.setdefault("_slots", set()).add(name)
+            src = f"{deco}\nclass {name}({parents}):\n" + "\n".join(body) + "\n"
             fam.exec_src(src)
             classes[name] = {"parent": parent if parent in classes else None, "tag": tag, "root": root}
             order.append(name)
@@ -159,6 +181,12 @@ def run_case(seed, tier, rec, st):
             wirings = {"holder": lambda d: mod.H.from_dict({"p": d}).p,
                        "holder-list": lambda d: mod.H.from_dict({"p": d, "q": [d]}).q[0],
                        "codec": dec.decode, "codec-dict": lambda d: dec_list.decode({"x": d})["x"]}
+            if mode == "annotated":
+                # the same metadata written OUTSIDE a wrapper of the class: Annotated[Optional[R], D], Annotated[List[R], D]
+                fam.exec_src(f"@dataclass\nclass HO(DataClassDictMixin):\n    o: Annotated[Optional[R], {pre_ann}{disc}] = None\n    l: Annotated[List[R], {pre_ann}{disc}] = field(default_factory=list)\n")
+                dec_o = BasicDecoder(eval(f"Annotated[Optional[R], {pre_ann}{disc}]", mod.__dict__))
+                wirings.update({"holder-optional-outside": lambda d: mod.HO.from_dict({"o": d}).o, "holder-list-outside": lambda d: mod.HO.from_dict({"l": [d, d]}).l[1],
+                                "codec-optional-outside": dec_o.decode})
             eligible_root = inc_super
         elif mode == "union":
             fam.exec_src("@dataclass\nclass R" + base + ":\n    f_R: int = 0\n@dataclass\nclass Q" + base + ":\n    f_Q: int = 0\n")
